@@ -238,6 +238,15 @@ Proof.
       * apply no_acc_single. apply plain_not_name. eapply symbol_not_name; exact Ho.
   - intros pre o flat cl B. apply (init_front_no_acc_gen _ _ cshift_plain fshift_throws).
     intros W HW. apply acc_cand_none, chain_plain, HW.
+  - intros pre o flat cl post semi B Hpre Ho Hflat Hcl Hpost Hsemi.
+    replace (pre ++ o :: flat ++ cl :: post ++ [semi]) with ((pre ++ [o]) ++ flat ++ cl :: post ++ [semi]) by (norm_app; reflexivity).
+    apply (no_acc_app _ _ cshift_plain fshift_throws).
+    + apply (plains_no_acc_gen _ _ cshift_plain fshift_throws); [|exact Hpre | left; exact Ho].
+      intros W HW. apply acc_cand_none, chain_plain, HW.
+    + apply (init_tail_no_acc_gen _ _ cinv_plain finv_throws); try assumption. apply stmt_throws_no_acc.
+  - intros kw colon B Hkw Hco. apply (no_acc_cons _ _ cshift_plain fshift_throws).
+    + apply plain_not_name. apply keyword_not_name. exact Hkw.
+    + apply no_acc_single. apply plain_not_name. eapply operator_not_name. exact Hco.
   - intros a tail o body cl post semi R Hjs. discriminate Hjs.
   - intros pre B Hpre HB. apply (prefix_no_plain LJava); [exact Hpre | exact HB | apply cshift_plain | apply fshift_throws].
 Qed.
